@@ -46,6 +46,9 @@ inductive HOp
   /-- the process ends; a fresh one loads the state file (which holds the state of this moment:
       every change above is followed by a save — when that save lands is C15's statement) -/
   | restart
+  /-- `AccessoryDriver.async_stop` on the RUNNING driver object: the server closes every connection; the state
+      object lives on and `async_start` (= the hash update `hsh`) may run it again (the same object, no load) -/
+  | stop
 
 /-- what an operation answers -/
 inductive HAns
@@ -82,6 +85,7 @@ def hstep (parse : Bytes → Option Uuid) (w : World) : HOp → World × HAns
     match loadJ (persistJ w.acc) with
     | some a => ({ acc := a, ss := Sessions.fresh }, .restarted true)
     | none => ({ acc := w.acc, ss := Sessions.fresh }, .restarted false)
+  | .stop => ({ w with ss := Sessions.fresh }, .saved false)
 
 /-- the world after a history -/
 def hrun (parse : Bytes → Option Uuid) (w : World) : List HOp → World
